@@ -28,6 +28,8 @@ type Spec struct {
 	Seed     uint64
 	Trackers []string
 	Webseeds []string
+	// BEP 17 seeds ("httpseeds")
+	HTTPSeeds []string
 	// HashOnly: when not nil, only these pieces get their true hash (the others a
 	// dummy one): for very long torrents of which only a few pieces are ever used
 	HashOnly []int
@@ -125,6 +127,13 @@ func Bytes(s Spec) ([]byte, []byte) {
 		out.WriteString("13:announce-listl")
 		for _, t := range s.Trackers {
 			out.WriteString("l" + bstr(t) + "e")
+		}
+		out.WriteString("e")
+	}
+	if len(s.HTTPSeeds) > 0 {
+		out.WriteString("9:httpseedsl")
+		for _, w := range s.HTTPSeeds {
+			out.WriteString(bstr(w))
 		}
 		out.WriteString("e")
 	}
